@@ -3,13 +3,13 @@ package main
 // Contract vocabulary (ghost builtins), call-by-contract, and per-function verification.
 
 import (
-	"go/constant"
 	"fmt"
-	"math/big"
-	"os"
 	"go/ast"
+	"go/constant"
 	"go/token"
 	"go/types"
+	"math/big"
+	"os"
 	"strings"
 
 	"golang.org/x/tools/go/packages"
@@ -372,6 +372,17 @@ func (c *VC) ghostBuiltin(st *State, name string, call *ast.CallExpr) []*Term {
 		}
 		c.unsupportedf(call.Pos(), "localBool: no such boolean local")
 		return []*Term{c.fresh("local", sortBool)}
+	case "called":
+		// called("f.g"): a call whose callee expression reads f.g was executed on this path since the
+		// start of the current loop iteration (since the function's entry outside loops)
+		if tv, ok := c.cur().view.typeOf(call.Args[0]); ok && tv.Value != nil {
+			if v := st.flags[constant.StringVal(tv.Value)]; v != nil {
+				return []*Term{v}
+			}
+			return []*Term{tFalse}
+		}
+		c.unsupportedf(call.Pos(), "called: argument must be a constant string")
+		return []*Term{c.fresh("called", sortBool)}
 	case "arg":
 		// arg[T](i): the i-th argument of the call a callsite assertion is attached to
 		if c.siteCall != nil {
